@@ -161,14 +161,13 @@ Definition flag_nan (p : particle) : particle := mkP (phash p) (pid p) true.
 Definition remove_idx (s : state) (index : Z) (keep : bool) : state * result :=
   if ((Z.of_nat (sN s) <=? index) || (index <? 0))%Z then (s, RFail)
   else if negb (sNvar s =? 0) then (s, RFail)
+  else if keep && tree s then (s, RFail)      (* refused before anything is modified *)
   else
     let i := Z.to_nat index in
-    if sN s =? 1 then
+    if (sN s =? 1) && negb (tree s) then
       (mkS (mem s) 0 (if (index <? sNact s)%Z then (sNact s - 1)%Z else sNact s) (sNvar s) (tab s) (nlook s)
            (tree s) (oob s), RRemoved i)
     else if keep then
-      if tree s then (s, RFail)
-      else
         let n1 := sN s - 1 in
         let nact := if (index <? sNact s)%Z then (sNact s - 1)%Z else sNact s in
         let '(m1, ob) := shift (n1 - i) i (mem s) (oob s) in
@@ -241,19 +240,19 @@ Definition remove_swap (i : nat) (l : list particle) : list particle :=
 Definition has_hash (h : N) (l : list particle) : Prop := exists p, In p l /\ phash p = h.
 
 (* a removal request for a valid index i is refused: variational particles present, or order
-   preservation requested while a tree exists (except for the last remaining particle) *)
+   preservation requested while a tree exists *)
 Definition refused (a : astate) (keep : bool) : bool :=
-  negb (aNvar a =? 0) || (negb (length (aps a) =? 1) && keep && atree a).
+  negb (aNvar a =? 0) || (keep && atree a).
 
 (* post-state of removing the valid index i, with the N_active rule: removing an index below N_active
    decrements N_active on every path that really removes (order-preserving, unsorted, last remaining
-   particle); the deferred (tree) removal only flags the particle.  Unsorted removal of an active
+   particle without a tree); with a tree the removal is deferred: the particle is only flagged.  Unsorted removal of an active
    particle keeps the active particles contiguous: the last active particle fills the hole and the last
    particle fills the slot of the last active one. *)
 Definition dec_nact (a : astate) (i : nat) : Z :=
   if (Z.of_nat i <? aNact a)%Z then (aNact a - 1)%Z else aNact a.
 Definition aremove (a : astate) (i : nat) (keep : bool) : astate :=
-  if length (aps a) =? 1 then mkA [] (dec_nact a i) (aNvar a) (atree a)
+  if (length (aps a) =? 1) && negb (atree a) then mkA [] (dec_nact a i) (aNvar a) (atree a)
   else if keep then mkA (remove_nth i (aps a)) (dec_nact a i) (aNvar a) (atree a)
   else if atree a then mkA (upd (aps a) i (flag_nan (nth i (aps a) pzero))) (aNact a) (aNvar a) (atree a)
   else if (Z.of_nat i <? aNact a)%Z then
@@ -262,7 +261,7 @@ Definition aremove (a : astate) (i : nat) (keep : bool) : astate :=
   else mkA (remove_swap i (aps a)) (aNact a) (aNvar a) (atree a).
 
 Definition removed_result (a : astate) (i : nat) (keep : bool) : result :=
-  if negb (length (aps a) =? 1) && negb keep && atree a then RFlagged i else RRemoved i.
+  if negb keep && atree a then RFlagged i else RRemoved i.
 
 (* which results the specification allows for an operation (removal by hash may pick any particle that
    carries the hash) *)
